@@ -1,6 +1,6 @@
 (* C14 (3) — correspondence for serialize / unserialize. *)
 From Coq Require Import List NArith ZArith Bool.
-From V.C14 Require Import Exh WireModel SerModel.
+From V.C14 Require Import Exh WireModel SerModel SerSpec.
 Import ListNotations.
 Open Scope N_scope.
 
@@ -21,16 +21,6 @@ Fixpoint value_eqb (a b : value) {struct a} : bool :=
   | VList x, VList y => list_eqb value_eqb x y
   | VMap x, VMap y => list_eqb (fun p q => SerModel.bytes_eqb (fst p) (fst q) && value_eqb (snd p) (snd q)) x y
   | _, _ => false
-  end.
-
-(* the PHP value an Origami value stands for: an empty ObjectValue and an empty ArrayValue are
-   both the empty array (unserialize returns the latter) *)
-Fixpoint canon (v : value) : value :=
-  match v with
-  | VList l => VList (map canon l)
-  | VMap [] => VList []
-  | VMap l => VMap (map (fun kv => (fst kv, canon (snd kv))) l)
-  | _ => v
   end.
 
 (* unserialize result as the implementation shows it: a value; failure is the value false *)
